@@ -1063,74 +1063,9 @@ var recLarge = ev.New("TestPropLargeInputs", "well-formed documents of a drawn s
 
 func TestPropLargeInputs(t *testing.T) {
 	ev.Check(t, 14, 300, func(t *rapid.T) {
-		size := rapid.SampledFrom([]int{1 << 16, 1 << 18, 1 << 20, 1 << 21, 1 << 22, 1 << 23, 1 << 24}).Draw(t, "size") + rapid.IntRange(0, 8192).Draw(t, "jitter")
-		shape := rapid.IntRange(0, 3).Draw(t, "shape")
-		var b strings.Builder
-		var want []string // command text per step ("\x00wait" for a wait step)
-		if rapid.Bool().Draw(t, "mapform") {
-			b.WriteString("env:\n  A: b\nsteps:\n")
-		}
-		small := func(i int) {
-			if rapid.IntRange(0, 5).Draw(t, "wait") == 0 {
-				b.WriteString("- wait\n")
-				want = append(want, "\x00wait")
-				return
-			}
-			c := fmt.Sprintf("echo step %d", i)
-			fmt.Fprintf(&b, "- command: %s\n", c)
-			want = append(want, c)
-		}
-		lead := rapid.IntRange(0, 3).Draw(t, "lead")
-		for i := 0; i < lead; i++ {
-			small(i)
-		}
-		line := rapid.SampledFrom([]string{"echo 0123456789 abcdefghijklmnopqrstuvwxyz", "make -j8 target", "x"}).Draw(t, "line")
-		switch shape {
-		case 0:
-			// very many short steps
-			for i := 0; b.Len() < size; i++ {
-				c := fmt.Sprintf("echo %d", i)
-				fmt.Fprintf(&b, "- command: %s\n", c)
-				want = append(want, c)
-			}
-		default:
-			chunks := rapid.IntRange(1, 3).Draw(t, "chunks")
-			for c := 0; c < chunks; c++ {
-				n := (size/chunks)/(len(line)+1) + 1
-				var text string
-				switch shape {
-				case 1:
-					// literal block scalar
-					b.WriteString("- command: |-\n")
-					for i := 0; i < n; i++ {
-						b.WriteString("    " + line + "\n")
-					}
-					text = strings.TrimSuffix(strings.Repeat(line+"\n", n), "\n")
-				case 2:
-					// one long plain scalar on one line
-					text = strings.TrimSuffix(strings.Repeat(line+" ", n), " ")
-					b.WriteString("- command: " + text + "\n")
-				default:
-					// double-quoted with escaped line feeds
-					b.WriteString("- command: \"")
-					for i := 0; i < n; i++ {
-						if i > 0 {
-							b.WriteString("\\n")
-						}
-						b.WriteString(line)
-					}
-					b.WriteString("\"\n")
-					text = strings.TrimSuffix(strings.Repeat(line+"\n", n), "\n")
-				}
-				want = append(want, text)
-				small(1000 + c)
-			}
-		}
-		trail := rapid.IntRange(1, 4).Draw(t, "trail")
-		for i := 0; i < trail; i++ {
-			small(2000 + i)
-		}
-		text := b.String()
+		ld := doc.GenLarge(t)
+		text, want, shape, size := ld.Text, ld.Want, ld.Shape, ld.Size
+		_ = size
 		var p *pipeline.Pipeline
 		var err error
 		func() {
@@ -1143,7 +1078,7 @@ func TestPropLargeInputs(t *testing.T) {
 			}()
 			p, err = pipeline.Parse(strings.NewReader(text))
 		}()
-		cls := []string{fmt.Sprintf("shape=%d", shape), fmt.Sprintf("size>=%dKiB", (size>>16)<<6)}
+		cls := ld.Classes()
 		if err != nil && !warning.Is(err) {
 			recLarge.Case(ev.Hash(size, shape, len(want)), false, append(cls, "hard-error")...)
 			return
